@@ -91,7 +91,10 @@ class SpecArray(object):
     def dd(self):
         """Direction resolution float."""
         if self.dir is not None and len(self.dir) > 1:
-            return abs(float(self.dir[1] - self.dir[0]))
+            # Bin width from the two lowest directions so it does not depend on the
+            # order directions are stored in (e.g., rotated or shuffled coordinates)
+            dirs = np.sort(self.dir.values)
+            return abs(float(dirs[1] - dirs[0]))
         else:
             return 1.0
 
